@@ -106,6 +106,8 @@ pub fn eval_on(sess: &jr::Session, code: &str, max_stack: usize) -> Outcome {
 fn handle(req: &Value) -> Value {
 	match req["op"].as_str().unwrap_or("") {
 		"ping" => json!({"o": "pong"}),
+		// C15: the libjsonnet C ABI through dlopen (a panic across the C boundary aborts this process only)
+		"capi" => crate::props::c15::capi_worker(req),
 		"eval" => {
 			let code = req["code"].as_str().unwrap_or("");
 			let out = jr::eval(code, &opts_of(req));
